@@ -25,6 +25,12 @@ pub uninterp spec fn expr_text(e: Expression) -> Seq<char>;
 pub uninterp spec fn prec(e: Expression) -> u8;
 pub uninterp spec fn single_cp(e: Expression) -> bool;
 impl<'a> VxShow for Expression<'a> { open spec fn shown(&self) -> Seq<char> { expr_text(*self) } #[verifier::external_body] fn vx_show(&self) -> (r: String) { unimplemented!() } }
+// helpers a changed text may reach for (specified exactly or uninterpreted; unused on the unchanged tree)
+#[verifier::external_body] pub fn vx_char_count(s: &str) -> (r: usize) ensures r == s@.len() { unimplemented!() }
+#[verifier::external_body] pub fn vx_str_starts_with_str(s: &str, p: &str) -> (r: bool) ensures r == (p@.len() <= s@.len() && forall|i: int| 0 <= i < p@.len() ==> #[trigger] s@[i] == p@[i]) { unimplemented!() }
+impl<'a> GraphemeCluster<'a> {
+    pub fn size(&self) -> (r: usize) ensures r == self.graphemes@.len() { self.graphemes.len() }
+}
 impl<'a> Expression<'a> {
     #[verifier::external_body] pub fn precedence(&self) -> (r: u8) ensures r == prec(*self) { unimplemented!() }
     #[verifier::external_body] pub fn is_single_codepoint(&self) -> (r: bool) ensures r == single_cp(*self) { unimplemented!() }
@@ -56,6 +62,7 @@ pub open spec fn operand_ok(r: Seq<char>, operand: Expression, context: Expressi
                clauses=[Clause('format.concatenation_operand', 'operand_ok(r@, *it, *expr, is_capturing_group_enabled, is_verbose_mode_enabled, true, is_output_colorized)', ['C02', 'C06', 'C16'])])
     # 3. format_repetition: the whole function
     b.verified_fn('format.rs', 'format_repetition', props=['C07'], fname='format_repetition', pre=lambda t, log, w: D.expand_format_macros(t, log, w),
+                  extra_rules=[('R12', r'\b(\w+)\.to_string\(\)\.starts_with\(("(?:[^"\\]|\\.)*")\)', r'vx_str_starts_with_str(&\1.vx_show(), \2)', 'Display rendering + str::starts_with(&str)')],
                   clauses=[Clause('format.repetition', 'exists|u: Seq<char>, q: Seq<char>| #[trigger] (old(f)@ + (u + q)) =~= final(f)@ && operand_ok(u, *expr1, *expr, is_capturing_group_enabled, is_verbose_mode_enabled, false, is_output_colorized) && (if is_output_colorized { colored_ok(q, Component::Quantifier(*quantifier, is_verbose_mode_enabled)) } else { q =~= plain(Component::Quantifier(*quantifier, is_verbose_mode_enabled)) })', ['C02', 'C06', 'C16'])])
     # 4. format_character_class: which characters are escaped inside a class
     f, _, _ = X.fn(fm, 'format_character_class')
@@ -120,7 +127,8 @@ pub open spec fn found_whole(r: Regex, s: Seq<char>) -> bool { first_match(r, s)
                pre=lambda t, log, w: some_and(re.sub(r'\s+', ' ', t), log, w),
                extra_rules=[('R19', r'regex\s*\.find_iter\(test_case\)\s*\.count\(\)', 'vx_match_count(regex, test_case)', 'Regex::find_iter(..).count() (uninterpreted number of matches)'),
                             ('R19', r'regex\s*\.find\(test_case\)', 'vx_find(regex, test_case)', 'Regex::find (uninterpreted leftmost-first match)'),
-                            ('R19', r'\btest_case\.len\(\)', 'vx_string_len(test_case)', 'String::len (UTF-8 length, uninterpreted)')],
+                            ('R19', r'\btest_case\.len\(\)', 'vx_string_len(test_case)', 'String::len (UTF-8 length, uninterpreted)'),
+                            ('R5', r'\btest_case\.chars\(\)\.count\(\)', 'vx_char_count(test_case)', 'chars().count(): number of code points')],
                clauses=[Clause('selfcheck.accepts_only_a_test_case_found_as_a_whole', 'r ==> found_whole(*regex, test_case@)', ['C08', 'C01'])])
     b.emit('} // verus!\nimpl Clone for Quantifier { fn clone(&self) -> Self { unimplemented!() } }\nfn main() {}')
     b.trusted += ['formatting model (R16); closure plumbing dropped: iter().map(closure).join / collect_vec / for_each / all apply the closure per element, in order',
